@@ -19,6 +19,7 @@ EnvS0 ==
        [] x.a = "dial"  -> DialAs(x.c, IF x.k = "" THEN "valid" ELSE x.k) /\ Log(E("dial", x.c, 0, IF x.k = "" THEN "valid" ELSE x.k, "", FALSE)) /\ UNCHANGED plan
        [] x.a = "close" -> ClientClose(x.c) /\ Log(E("close", x.c, 0, "", "", FALSE)) /\ UNCHANGED plan
        [] x.a = "stopreading" -> StopReading(x.c) /\ Log(E("stopreading", x.c, 0, "", "", FALSE)) /\ UNCHANGED plan
+       [] x.a = "timeout" -> ReadDeadline(x.c) /\ Log(E("timeout", x.c, 0, "", "", FALSE)) /\ UNCHANGED plan
        [] x.a = "send"  -> /\ Send(x.c, x.k) /\ Log(E("send", x.c, sent[x.c] + 1, x.k, "", x.hold))
                            /\ plan' = [plan EXCEPT ![x.c][sent[x.c] + 1] = x.hold]
        [] x.a = "release" -> /\ plan[x.c][x.i] /\ hs[x.c][x.i] \in {"running", "inline"} /\ plan' = [plan EXCEPT ![x.c][x.i] = FALSE]
